@@ -106,16 +106,23 @@ func VH_C07_merge() {
 	n := 1 + rt.Choose(rt.Param("N", 4))
 	// one mutation from the catalogue at one position of an otherwise produced history;
 	// clock values are arbitrary everywhere
-	mut := rt.Choose(7)
+	mut := rt.Choose(8)
 	vhMut.kind, vhMut.pos = 0, 0
 	if mut >= 1 && mut <= 4 {
 		vhMut.kind, vhMut.pos = mut, rt.Choose(n)
+	}
+	if mut == 7 {
+		vhMut.kind = 5
 	}
 	defer func() { vhMut.kind = 0 }()
 	d := vhGenDag(n, false, 2)
 	vhMut.kind = 0
 	R := rt.Choose(n)
 	L := rt.Choose(n+1) - 1
+	if mut == 7 {
+		L = -1 // an empty entity cannot be a readable local one
+		rt.Cover("empty-entity")
+	}
 	for i := 0; i < d.n; i++ {
 		rt.Assume(rt.And(d.edit[i] < ^uint64(0)-8, d.create[i] < ^uint64(0)-8))
 	}
@@ -175,6 +182,9 @@ func VH_C07_merge() {
 	rt.Assert(res.Status != entity.MergeStatusError && res.Err == nil, "hostile-merge-no-internal-error")
 	if mut == 5 || mut == 6 {
 		rt.Assert(res.Status == entity.MergeStatusInvalid, "mismatching-ref-name-reported-invalid")
+	}
+	if mut == 7 {
+		rt.Assert(res.Status == entity.MergeStatusInvalid, "empty-entity-reported-invalid")
 	}
 	if res.Status == entity.MergeStatusInvalid {
 		rt.Cover("invalid-reported")
